@@ -32,10 +32,10 @@ type c02 struct {
 }
 
 func checkC02(c *Ctx) {
-	c.Rule("C02.R1", "for every ring the on-segment test and the ray test each see exactly the closed ring: pairs (k-1,k) for 1≤k<len plus the closing pair (len-1,0)")
-	c.Rule("C02.R2", "OnEdge from any ring or member polygon is returned at once; every crossing toggles the status (even-odd) across rings and member polygons; rings are skipped only for len<3 or by the box pre-filter")
+	c.Rule("C02.R1", "model evaluation of Point.Within with the two segment predicates — the package's (Point, Point, Point) bool functions — replaced by oracles: with every answer false, each predicate is asked about every segment of every ring exactly once, the closing pair (last, first) included, for polygons and multi-polygons of several rings, open and closed, and for rings whose box the point only touches")
+	c.Rule("C02.R2", "model evaluation, same model: one predicate answers 'on the segment' (OnEdge at once, whatever crossings are reported elsewhere), the other counts crossings, and the result is Inside exactly for an odd number of crossings summed over all rings and member polygons")
 	c.Rule("C02.R3", "the per-ring pre-filter is the closed box test of the ring's own bounds: a point inside or on the ring's box is never skipped")
-	c.Rule("C02.R4", "MultiPoint/LineString/MultiLineString/Polygon.Within visit every vertex/member; Outside is returned exactly when one classifies as Outside; the fall-through result is not Outside")
+	c.Rule("C02.R4", "model evaluation of MultiPoint/LineString/MultiLineString/Polygon.Within with the per-vertex classification replaced by an oracle: Outside exactly when some vertex or member is classified Outside, every vertex and member consulted, the fall-through result not Outside")
 	c.Rule("C02.R5", "whenever a segment predicate returns a definite value using comparisons alone, that value is the one order-level geometry dictates (all orderings of {p,a,b} per axis, exhaustive)")
 	a := &c02{c: c, info: c.P.Pkg("geom").TypesInfo}
 	if !a.anchors() {
